@@ -31,7 +31,7 @@ LEVEL = ('proof',
  'lexer::lex through Tokens::{len,kind,range,iter} vs the compiled model on all strings <= 3 (thorough: <= '
  '4) over a 24-symbol alphabet, all strings <= 2 over ASCII + 28 non-ASCII scalar values, random Unicode and '
  "corpus mutations to 64 KiB; the implementation's own output is also checked by the verified checker "
- "checkLex. Props/C22Doc.lean ties the rule table to the documented spellings and token classes (documented_spellings, documented_classes), re-checked against the real lexer on every run. The clause 'without panicking' is false for a complete Tokens::iter() traversal (zip_eq of n "
+ "checkLex. Props/C22Doc.lean ties the rule table to the documented spellings and token classes (documented_spellings, documented_classes, documented_float_shape: where a float literal ends — `1.5e_` is the float `1.5` and the identifier `e_`), re-checked against the real lexer on every run. The clause 'without panicking' is false for a complete Tokens::iter() traversal (zip_eq of n "
  'kinds with n+1 starts): iter_traversal_partial + iter_traversal_counterexample (for every text), known '
  'finding tokens_iter_zip_eq.',
  '§4 C22',
